@@ -493,6 +493,19 @@ def rollback_cover(ctx: Ctx):
                 return False, 'the handler can re-raise without deleting the partial entry (the delete is conditional)'
             if not _handler_always_raises(ctx, save, h):
                 return False, 'the handler does not re-raise: a failed save would be reported as success'
+            # nothing that can itself fail runs before the delete (a warning turned into an error by -W error, a formatted
+            # message touching an unbound name, another storage call): the cleanup would be skipped
+            from ..engine import cannot_raise
+            dstmt = next((st for st in h.body if any(x is d for x in ast.walk(st))), None)
+            for st in h.body:
+                if st is dstmt:
+                    break
+                plain_log = isinstance(st, ast.Expr) and isinstance(st.value, ast.Call) and isinstance(st.value.func, ast.Attribute) \
+                    and st.value.func.attr in ('debug', 'info', 'warning', 'error', 'exception') and 'log' in src(st.value.func.value).lower() \
+                    and all(isinstance(a, (ast.Constant, ast.Name)) for a in st.value.args)
+                if not (cannot_raise(ctx, save, st) or plain_log):
+                    return False, (f'`{src(st)[:50]}` runs in the rollback handler before the entry is deleted and can raise itself '
+                                   '(warnings as errors, a failing format): the partial entry then stays')
             return True, ''
         widest = [src(h.type) if h.type else 'bare' for h in t.handlers]
         return False, (f'handlers {widest} do not cover BaseException: an interrupt (KeyboardInterrupt/SystemExit) during the save '
@@ -863,7 +876,7 @@ def _storage_features(ctx: Ctx, c, mname: str) -> dict:
     return feats
 
 
-@rule('C08.STORAGE-SIBLINGS', ['C08'], min_instances=3)
+@rule('C08.STORAGE-SIBLINGS', ['C08', 'C12', 'C13'], min_instances=3)
 def storage_siblings(ctx: Ctx):
     """LocalStorage and FsspecStorage agree on the feature vector of exists / file_handle / delete."""
     ls = ctx.P.cls('storage.LocalStorage')
@@ -986,7 +999,7 @@ def key_format_agree(ctx: Ctx):
                  '' if ok else f'load_metadata tests for prefix {b} but cache_key builds {a}')
 
 
-@rule('C08.FIND-KEYS', ['C08', 'C09'])
+@rule('C08.FIND-KEYS', ['C08', 'C09', 'C13', 'C12'])
 def find_keys(ctx: Ctx):
     """find_keys lists every entry of the storage directory: LocalStorage returns the name of every
     directory under the root (only non-directories are skipped), FsspecStorage every listed entry relative to
@@ -1104,3 +1117,25 @@ def prepare_before_visible(ctx: Ctx):
                  'between the first file_handle() and the end of the save only the writes happen',
                  '' if not bad else f'`{src(bad[0])[:70]}` runs after the entry became visible (first storage.file_handle) and before the payload is '
                  'complete: a kill or failure there leaves an entry that is reported as cached but cannot be loaded')
+
+
+@rule('C12.DELETE-TOTAL', ['C12', 'C13', 'C08'])
+def delete_total(ctx: Ctx):
+    """Storage.delete removes whatever is there - one recursive removal of the key directory, guarded by its existence - and
+    never a named file on its own.  The rollback of a failed save calls it on a *partial* entry: a delete that first unlinks
+    `metadata.json` (or any specific file) raises FileNotFoundError inside the rollback handler when that file was not
+    written yet, and the rest of the entry stays."""
+    n = 0
+    for m in roles.impls(ctx, roles.STORAGE, 'delete'):
+        if m.module.name.endswith('.types'):
+            continue
+        n += 1
+        single = [c for c in calls_in(m.node) if (isinstance(c.func, ast.Attribute) and c.func.attr in ('unlink', 'rm_file', 'remove', 'rmdir'))
+                  or (dotted(c.func) or '') in ('os.remove', 'os.unlink', 'os.rmdir')]
+        single = [c for c in single if not (isinstance(c.func, ast.Attribute) and c.func.attr == 'remove' and not c.args)]
+        ok = not single
+        yield ctx.ob('C12.DELETE-TOTAL', ok, m, single[0] if single else m.node, f'{m.short} removes the key directory as a whole',
+                     '' if ok else f'`{src(single[0])[:60]}` removes one named file / directory level on its own: on a partially written entry (the '
+                     'rollback of a failed save) it raises before the rest is removed, and the leftover looks cached')
+    if n < 2:
+        raise AnalysisError('fewer than two Storage.delete implementations found')
